@@ -39,6 +39,13 @@ def check_effects(chk, prog, eff, rule='C13.no-config-writes'):
                    'configuration (struct jwt_common) or to a global/static', total, bad, floor=60)
 
 
+# library calls whose result depends on what the thread or the process did earlier (not on configuration, token or clock)
+def reads_history(name):
+    return name.startswith(('ERR_peek', 'ERR_get_error', 'ERR_GET_')) or name in (
+        'rand', 'random', 'lrand48', 'drand48', 'getenv', 'secure_getenv', '__errno_location', 'getpid', 'gettid', 'pthread_self',
+        'gnutls_error_is_fatal_last', 'RAND_bytes', 'RAND_priv_bytes', 'gnutls_rnd')
+
+
 class DepRule(H.CallbackRule):
     alloc_may_fail = True
 
@@ -46,6 +53,7 @@ class DepRule(H.CallbackRule):
         self.cfg_args = []
         self.obj = obj
         self.branches = []
+        self.hist = []
         self.nbranch = 0
 
     def keep_event(self, ev):
@@ -59,6 +67,9 @@ class DepRule(H.CallbackRule):
         f2, o2, m2 = it.deps(vkey(v))
         if ('mem', self.obj, 'error') in m2:
             self.branches.append(node_loc(node))
+        for a in f2:
+            if a[0] in ('api', 'out', 'call') and isinstance(a[1], str) and reads_history(a[1]):
+                self.hist.append((a[1], node_loc(node)))
 
 
 def check_dependence(chk, prog, env, model):
@@ -68,7 +79,7 @@ def check_dependence(chk, prog, env, model):
     for variant, entry, rec in ENTRY:
         unit = T.VARIANT_UNIT[variant]
         prog.func(unit, entry)
-        for cb in (False, True):
+        for cb, provider in [(c_, p_) for c_ in (False, True) for p_ in H.providers(prog) if p_ != 'mbedtls']:
             o = ('obj', variant)
             rule = DepRule(o)
             it = Interp(prog, unit, model=model, rule=rule, budget=900000,
@@ -79,7 +90,7 @@ def check_dependence(chk, prog, env, model):
             H.set_key(st, o, env, 'sym')
             if variant == 'builder':
                 st.mem[(('obj', 'key'), 'is_private_key')] = Int(1)
-            H.bind_provider(st, 'openssl')
+            H.bind_provider(st, provider)
             args = [Ref(o), Term(('token',), ptr=True)] if variant == 'checker' else [Ref(o)]
             res = it.run(entry, args, st)
             total += rule.nbranch
@@ -94,14 +105,43 @@ def check_dependence(chk, prog, env, model):
                 bad += 1
                 chk.add(Finding('C13.no-history-dependence', f or 'libjwt/jwt-common.c', entry, 'branch-on-old-flag',
                                 'a branch at %s:%s depends on the previous error flag of the %s' % (f, l, variant), line=l))
+            for nm, (f, l) in sorted(set(rule.hist)):
+                bad += 1
+                chk.add(Finding('C13.no-history-dependence', f or 'libjwt/jwt-common.c', entry, 'branch-on-%s' % nm,
+                                'a branch at %s:%s on the way to the verdict depends on %s(), whose result depends on what the thread or '
+                                'process did before this call' % (f, l, nm), line=l))
             for cfg, (f, l) in rule.cfg_args:
                 total += 1
                 if not (isinstance(cfg, Ref) and cfg.loc[0] == 'var'):
                     bad += 1
                     chk.add(Finding('C13.callback-gets-local-config', f or 'libjwt/jwt-common.c', entry, 'config-arg',
                                     'the callback is handed %r, not the address of a per-call local jwt_config_t' % (cfg,), line=l))
-    chk.rule('C13.no-history-dependence', 'no return value or branch of verify/generate depends on the previous error flag; the callback '
-                                          'edits a per-call local config', total, bad, floor=40)
+    # the claim evaluation is summarised above: its own branches are examined here
+    prog.func('libjwt/jwt-verify.c', '__verify_claims')
+    rule = DepRule(('obj', 'checker'))
+    it = Interp(prog, 'libjwt/jwt-verify.c', model=model, rule=rule, budget=900000, hooks=H.std_hooks(env))
+    st = State()
+    jwt = ('obj', 'jwt')
+    ck = ('obj', 'checker')
+    st.zero.add(jwt)
+    st.mem[(jwt, 'claims')] = Ref(('obj', 'token_claims'))
+    st.mem[(jwt, 'checker')] = Ref(ck)
+    st.mem[(ck, 'c.payload')] = Ref(('obj', 'expected_claims'))
+    st.mem[(ck, 'error')] = Term(('mem', ck, 'error'))
+    res = it.run('__verify_claims', [Ref(jwt)], st)
+    total += rule.nbranch + len(res)
+    for nm, (f, l) in sorted(set(rule.hist)):
+        bad += 1
+        chk.add(Finding('C13.no-history-dependence', f or 'libjwt/jwt-verify.c', '__verify_claims', 'branch-on-%s' % nm,
+                        'a branch at %s:%s of the claim evaluation depends on %s(), whose result depends on what the thread or process '
+                        'did before this call' % (f, l, nm), line=l))
+    for (f, l) in rule.branches:
+        bad += 1
+        chk.add(Finding('C13.no-history-dependence', f or 'libjwt/jwt-verify.c', '__verify_claims', 'branch-on-old-flag',
+                        'a branch at %s:%s depends on the previous error flag of the checker' % (f, l), line=l))
+    chk.rule('C13.no-history-dependence', 'no return value or branch of verify/generate (either provider) depends on the previous error flag '
+                                          'or on a library call that reads thread/process history (error queues, errno, environment, RNG); '
+                                          'the callback edits a per-call local config', total, bad, floor=40)
 
 
 def run(chk, prog, tier):
